@@ -165,6 +165,17 @@ def param_case(spec, ctx):
                 ctx.fail("flatten-roundtrip:process_noise", f"{pn} vs {m['process_noise']}", spec)
             if {k: {str(r): x for r, x in v.items()} for k, v in back["sensor_noises"].items()} != m["sensor_noises"]:
                 ctx.fail("flatten-roundtrip:sensor_noises", f"{back['sensor_noises']} vs {m['sensor_noises']}", spec)
+        if isinstance(back, dict) and "process_noise" in back and len(m["control"]) >= 2:
+            # what fit does with the optimiser's last vector: a term far below the floor next to a large one (the shape the
+            # minimiser ends in when it pins one control's noise) must still come back strictly positive and finite
+            probe = [float(v_) for v_ in flat]
+            probe[0], probe[1] = 1e-9, 5.0
+            with ctx.formak("inverse-flatten:pinned-term", spec):
+                back2 = inv(list(probe))
+            vals = [float(v_) for v_ in back2["process_noise"].values()]
+            if not all(math.isfinite(v_) and v_ > 0 for v_ in vals):
+                ctx.fail("fit-nonpositive-process-noise:inverse-flatten", f"optimiser vector {probe[:len(m['control'])]} -> process noise {back2['process_noise']}", spec)
+            ctx.event("inverse_flatten_pinned_term_checked")
         ctx.event("flatten_roundtrip_checked")
     else:
         ctx.event("flatten_helpers_absent_or_other_shape")
